@@ -127,6 +127,9 @@ partial def step (s : St) (line : String) : St × String :=
     (s, semi (sortStrs (seriesBy s meas key op vals)))
   | ["measin", vals] => (s, semi (sortStrs ((measurements s).filter fun m => (vals.splitOn ",").contains m)))
   | ["card"] => (s, s!"card {s.index.length}")
+  | ["sidew", _] => (s, "ok")    -- points of another shard of the database: nothing here changes
+  | ["sidedel"] => (s, "ok")
+  | ["sidelist", _] => (s, "ok")
   | ["idxcompact"] => (s, "ok")
   | ["sfcompact"] => (s, "ok")
   | ["drops", meas, key, op, vals] =>
